@@ -599,3 +599,20 @@ func TestD30_CustomAliasesInput(t *testing.T) {
 		t.Fatalf("Parse modified its input: %v", in)
 	}
 }
+
+// D31: zjson.Decode read the first JSON value only: a body with anything after it was accepted
+func TestD31_TrailingDataAfterJSON(t *testing.T) {
+	type D struct{ Name string }
+	s := z.Struct(z.Schema{"name": z.String().Required()})
+	for _, body := range []string{`{"name":"x"} garbage`, `{"name":"x"}]`, `{"name":"x"}{"name":"y"}`} {
+		var d D
+		errs := s.Parse(zjson.Decode(strings.NewReader(body)), &d)
+		if len(errs["$root"]) != 1 || errs["$root"][0].Code != "invalid_json" || d.Name != "" {
+			t.Fatalf("body %q: issues %v dest %+v (want one invalid_json, destination untouched)", body, errs, d)
+		}
+	}
+	var d D
+	if errs := s.Parse(zjson.Decode(strings.NewReader("{\"name\":\"x\"} \n\t")), &d); errs != nil || d.Name != "x" {
+		t.Fatalf("trailing white space must be accepted: %v %+v", errs, d)
+	}
+}
